@@ -192,7 +192,8 @@ with loop index `lp`, the independent reader `runPitchEnv` decodes the bytes
 last node holding for ever when there is no loop mark, and the loop target is the index of the
 first iteration after the mark.  There are never more than 256 nodes (`add_pitch_node` rejects
 the 257th), so every node index fits its byte; the only hypothesis left is on the loop mark:
-`lp < 256` excludes the one case where it sits behind the 256th node. -/
+`lp < 256` excludes the one case where it sits behind the 256th node, which `addPitch` rejects
+before it calls `pitchFinish` (`C11_pitch_loop_checked`). -/
 theorem C11_pitch_decode_compact {α} (A : Arith α) (ue : Bool) (items : List (PItem α)) (cs : List RawChunk) (lp : Int)
     (h : envChunks A ue false items [] (-1) = .ok (cs, lp)) (hlp : lp < 256) (hne : cs ≠ []) :
     cs.length ≤ 256 ∧
@@ -248,6 +249,51 @@ theorem C11_pitch_decode_extended {α} (A : Arith α) (ue : Bool) (items : List 
     refine ⟨k, rfl, by simp at h2 ⊢; omega, ?_⟩
     rw [hr, ext_loop init c k hk her hl]
     simp
+
+/-- the hypothesis `lp < 256` of the two read-back theorems is what `add_pitch_envelope` /
+`add_extended_pitch_envelope` check before they emit the end command: whenever `addPitch`
+accepts a (non-empty) definition, the loop position of the form it stores is below 256 — a loop
+mark behind the 256th node is an InputError, not a wrapped byte. -/
+theorem C11_pitch_loop_checked {α} (A : Arith α) (st st' : State) (id : Nat) (tag : List String)
+    (h : addPitch A st id tag = .ok st') (hne : tag ≠ []) :
+    (∃ env lp, pitchTokens A st.useExt false tag [] (-1) = .ok (env, lp) ∧ lp < 256) ∨
+    (pitchTokens A st.useExt false tag [] (-1) = .error .invalidArgument ∧
+      ∃ env lp, pitchTokens A st.useExt true tag [] (-1) = .ok (env, lp) ∧ lp < 256) := by
+  unfold addPitch at h
+  have hte : tag.isEmpty = false := by cases tag <;> simp_all
+  simp only [hte, Bool.false_eq_true, if_false] at h
+  cases h1 : pitchTokens A st.useExt false tag [] (-1) with
+  | ok r =>
+    obtain ⟨env, lp⟩ := r
+    left
+    refine ⟨env, lp, rfl, ?_⟩
+    simp only [h1] at h
+    split at h
+    · cases h
+    · split at h
+      · cases h
+      · rename_i hlp
+        simp only [Tables.mdsdrv_pitch_loop_max] at hlp
+        omega
+  | error e =>
+    cases e with
+    | input => simp [h1] at h
+    | tooLong => simp [h1] at h
+    | invalidArgument =>
+      right
+      refine ⟨rfl, ?_⟩
+      simp only [h1] at h
+      cases h2 : pitchTokens A st.useExt true tag [] (-1) with
+      | ok r =>
+        obtain ⟨env, lp⟩ := r
+        refine ⟨env, lp, rfl, ?_⟩
+        simp only [h2] at h
+        split at h
+        · cases h
+        · rename_i hlp
+          simp only [Tables.mdsdrv_pitch_loop_max] at hlp
+          omega
+      | error e => cases e <;> simp [h2] at h
 
 /-- which form: under `noextpitch` (`ue = false`) the compact form never throws
 `invalid_argument` — a step that does not fit is capped to a signed byte (`clamp8`); neither
